@@ -349,4 +349,14 @@ def r15_5(ctx):
     return out
 
 
-RULES = [r15_1, r15_2, r15_3, r15_4, r15_5]
+def r15_6(ctx):
+    from rules import C10
+    o = C10.r10_2(ctx)
+    o.rule = "R15.6"
+    o.text = ("the subdivision and degree-reduction matrices come from memo tables keyed completely and by discrete "
+              "values only, never mutated: the pieces of a split do not depend on which splits happened before, nor on "
+              "the numeric type an earlier caller used (same analysis as R10.2)")
+    return o
+
+
+RULES = [r15_1, r15_2, r15_3, r15_4, r15_5, r15_6]
